@@ -8,12 +8,25 @@ use crate::frame::*;
 use crate::rng::{hash_str, Rng};
 use cfgrammar::{NewlineCache, Span};
 use lrlex::{DefaultLexerTypes, LRLexError, LRNonStreamingLexer};
-use lrpar::{LexParseError, Lexeme, NonStreamingLexer};
+use lrpar::{LexParseError, Lexeme, Lexer, NonStreamingLexer};
 use serde_json::{json, Map, Value};
 use std::collections::BTreeMap;
 use std::str::FromStr;
 
 pub struct C19;
+
+thread_local! {
+    /// a lexer definition with a rule for letters (token id 0), a named rule for digits that has NO token
+    /// id (as if the grammar did not know the token), white space skipped, everything else unmatched
+    static LEXDEF: lrlex::LRNonStreamingLexerDef<DefaultLexerTypes<u32>> = {
+        use lrlex::LexerDef;
+        let mut ld = lrlex::LRNonStreamingLexerDef::<DefaultLexerTypes<u32>>::from_str("%%\n[a-z]+ 'ID'\n[0-9]+ 'NUM'\n[ \\t\\n\\r]+ ;\n").expect("lexer definition");
+        let mut map = std::collections::HashMap::new();
+        map.insert("ID", 0u32);
+        let _ = ld.set_rule_ids(&map);
+        ld
+    };
+}
 
 thread_local! {
     /// grammar `S: ;` with one token, its table and the token's id (for parse errors at a chosen lexeme)
@@ -25,7 +38,7 @@ thread_local! {
     };
 }
 
-const ALPHA: [&str; 6] = ["a", "é", "♠", "\n", "\r", " "];
+const ALPHA: [&str; 7] = ["a", "é", "♠", "\n", "\r", " ", "7"];
 
 fn exhaustive_len(tier: Tier) -> usize {
     tier.sz(4, 6) as usize
@@ -393,6 +406,46 @@ fn check_text(s: &str, all_chunkings: bool, rng: &mut Rng, out: &mut CaseOut) {
             }
         }
     }
+    // through a real lexer definition: the NewlineCache of a lexer produced by LRNonStreamingLexerDef::lexer
+    // must describe exactly the input, whether lexing ran to the end, stopped at an unmatched character
+    // (here: 'é', '♠', ...) or at a named rule that has no token id (here: digits)
+    LEXDEF.with(|ld| {
+        let lexer = match guarded(|| ld.lexer(s)) {
+            Ok(l) => l,
+            Err(p) => {
+                out.violate("panic", &["lexerdef"], format!("LRNonStreamingLexerDef::lexer panicked: {p}"), json!({"text": s}));
+                return;
+            }
+        };
+        let stopped_early = lexer.iter().any(|l| l.is_err());
+        if stopped_early {
+            out.count("lexerdef_inputs_with_a_lexing_error", 1);
+        }
+        if s.chars().any(|c| c.is_ascii_digit()) {
+            out.count("lexerdef_inputs_with_an_unmapped_token", 1);
+        }
+        let pairs: Vec<(usize, usize)> = if all_chunkings {
+            bs.iter().enumerate().flat_map(|(i, &a)| bs[i..].iter().map(move |&b| (a, b))).collect()
+        } else {
+            (0..60).map(|_| { let a = rng.below(bs.len()); let b = a + rng.below(bs.len() - a); (bs[a], bs[b]) }).collect()
+        };
+        for (st, en) in pairs {
+            out.evals += 1;
+            out.count("lexerdef_spans", 1);
+            let (exp_st, exp_ens) = m.span_lines(st, en);
+            match guarded(|| (lexer.span_lines_str(Span::new(st, en)).to_string(), lexer.line_col(Span::new(st, en)))) {
+                Err(p) => out.violate("span-lines-panic", &["lexerdef"], format!("lexer (from a lexer definition) span_lines_str/line_col({st}..{en}) panicked: {p}"), json!({"text": s, "span": [st, en], "api": "LRNonStreamingLexerDef::lexer"})),
+                Ok((txt, ((l1, c1), (l2, c2)))) => {
+                    if !exp_ens.iter().any(|e| txt == s[exp_st..*e]) {
+                        out.violate("span-lines-wrong", &["lexerdef"], format!("span_lines_str({st}..{en}) = {txt:?}, expected one of {:?}", exp_ens.iter().map(|e| &s[exp_st..*e]).collect::<Vec<_>>()), json!({"text": s, "span": [st, en], "api": "LRNonStreamingLexerDef::lexer"}));
+                    }
+                    if l1 != m.line(st) || !m.cols(st).contains(&c1) || l2 != m.line(en) || !m.cols(en).contains(&c2) {
+                        out.violate("column-mismatch", &["lexerdef"], format!("line_col({st}..{en}) = (({l1},{c1}),({l2},{c2})), expected (({},{:?}),({},{:?}))", m.line(st), m.cols(st), m.line(en), m.cols(en)), json!({"text": s, "span": [st, en], "api": "LRNonStreamingLexerDef::lexer"}));
+                    }
+                }
+            }
+        }
+    });
     if has_nl {
         out.nontrivial(hash_str(s));
     }
@@ -419,8 +472,8 @@ fn many_lines_text(rng: &mut Rng) -> String {
 fn random_text(rng: &mut Rng) -> String {
     let n = rng.range(5, 60);
     let mut s = String::new();
-    let pool = ["a", "bc", "é", "♠", "\n", "\r\n", "\r", " ", "\n\n", "x", "𝄞", "日本", "\u{200b}", "e\u{301}"];
-    let w = [6, 4, 3, 2, 6, 4, 1, 4, 2, 5, 1, 3, 2, 2];
+    let pool = ["a", "bc", "é", "♠", "\n", "\r\n", "\r", " ", "\n\n", "x", "𝄞", "日本", "\u{200b}", "e\u{301}", "42"];
+    let w = [6, 4, 3, 2, 6, 4, 1, 4, 2, 5, 1, 3, 2, 2, 3];
     for _ in 0..n {
         s.push_str(pool[rng.weighted(&w)]);
     }
@@ -435,7 +488,7 @@ impl Check for C19 {
         n_exh_cases(tier) + n_rand_cases(tier)
     }
     fn rule(&self) -> &'static str {
-        "exhaustive: every string of length <= L over {a, é, ♠, LF, CR, space} (L=4 quick, 6 thorough) x every chunking into <= 3 feeds x every char-boundary offset x every char-boundary span, through NewlineCache, NonStreamingLexer::{line_col,span_lines_str}, LexParseError::pp (lexing errors at every offset, parse errors at lexemes covering every span) and lrpar::diagnostics::SpannedDiagnosticFormatter::{file_location_msg at every offset, underline_span_with_text against a reference rendering: all spans of the exhaustive texts, sampled spans of the longer ones}; plus random longer texts (5-60 pieces incl. CRLF, 4-byte, double-width, zero-width and combining chars; every third one has 9-20 or ~100 short lines so that spans cross the 9/10 and 99/100 line-number boundaries) with random chunkings. Non-trivial = text contains at least one LF; distinct by text."
+        "exhaustive: every string of length <= L over {a, é, ♠, LF, CR, space, 7} (L=4 quick, 6 thorough) x every chunking into <= 3 feeds x every char-boundary offset x every char-boundary span, through NewlineCache, NonStreamingLexer::{line_col,span_lines_str} (on a hand-made lexer and on the lexer that a real lexer definition produces for the text - including texts on which lexing stops at an unmatched character or at a named rule without token id), LexParseError::pp (lexing errors at every offset, parse errors at lexemes covering every span) and lrpar::diagnostics::SpannedDiagnosticFormatter::{file_location_msg at every offset, underline_span_with_text against a reference rendering: all spans of the exhaustive texts, sampled spans of the longer ones}; plus random longer texts (5-60 pieces incl. CRLF, 4-byte, double-width, zero-width and combining chars; every third one has 9-20 or ~100 short lines so that spans cross the 9/10 and 99/100 line-number boundaries) with random chunkings. Non-trivial = text contains at least one LF; distinct by text."
     }
     fn assumptions(&self) -> Vec<&'static str> {
         vec![
@@ -449,13 +502,13 @@ impl Check for C19 {
         tier.sz(500, 20000)
     }
     fn required_counters(&self, _tier: Tier) -> Vec<&'static str> {
-        vec!["spans_ending_at_line_start", "spans_ending_at_text_end", "empty_spans", "multi_line_spans", "crlf_columns", "pp_checked", "pp_parse_errors_at_nonempty_lexemes", "diagnostics_locations_checked", "diagnostics_multi_line_underlines", "diagnostics_underlines_across_a_digit_boundary"]
+        vec!["spans_ending_at_line_start", "spans_ending_at_text_end", "empty_spans", "multi_line_spans", "crlf_columns", "pp_checked", "pp_parse_errors_at_nonempty_lexemes", "lexerdef_spans", "lexerdef_inputs_with_a_lexing_error", "lexerdef_inputs_with_an_unmapped_token", "diagnostics_locations_checked", "diagnostics_multi_line_underlines", "diagnostics_underlines_across_a_digit_boundary"]
     }
     fn extra_coverage(&self, tier: Tier, c: &BTreeMap<String, u64>) -> Map<String, Value> {
         let mut m = Map::new();
         let l = exhaustive_len(tier);
         m.insert("exhaustive".into(), json!(c.get("exhaustive_texts").copied().unwrap_or(0) == space_size(l)));
-        m.insert("exhaustive_space".into(), json!(format!("all {} strings of length <= {} over a 6-symbol alphabet", space_size(l), l)));
+        m.insert("exhaustive_space".into(), json!(format!("all {} strings of length <= {} over a 7-symbol alphabet", space_size(l), l)));
         m
     }
     fn run_case(&self, seed: u64, idx: u64, tier: Tier) -> CaseOut {
